@@ -650,6 +650,12 @@ func (g G) exprFor(c m.ConsM, env exprEnv, depth int) string {
 		if g.Chance(8) {
 			parts = append(parts, "zz_unknown = 1")
 		}
+		if len(parts) > 0 && g.Chance(8) {
+			// a key that is no literal name, right behind a known one
+			k := Pick(g, []string{"42", "(var.a)", `("zz")`, `"${var.ab}"`, "var.a"})
+			i := g.Int(1, len(parts))
+			parts = append(parts[:i], append([]string{k + " = " + Pick(g, []string{`"b"`, "1", "true"})}, parts[i:]...)...)
+		}
 		return g.braces(parts)
 	case "oneof":
 		if len(c.Elems) == 0 {
